@@ -173,8 +173,31 @@ func drawC18Subject(t *rapid.T) c18Subject {
 		m = GenAny(t, p)
 	}
 	sparse := len(m.Comps) == 0 || m.CertRef == nil || m.VSI == nil || (p == P2 && m.BootSeed == nil) || (p == P1 && m.Profile == nil)
-	kind := rapid.SampledFrom([]string{"literal", "decoded-cbor", "decoded-json", "setters", "evidence-decoded", "evidence-signed", "extension"}).Draw(t, "subject")
+	kind := rapid.SampledFrom([]string{"literal", "decoded-cbor", "decoded-json", "setters", "evidence-decoded", "evidence-signed", "extension", "extension-ptr-embedded"}).Draw(t, "subject")
+	if p == P2 && (kind == "literal" || kind == "decoded-cbor") && rapid.IntRange(0, 5).Draw(t, "samenonces") == 0 {
+		// a nonce array whose entries are all the same value
+		n := drawBytes(t, drawHashLen(t, "samenonce.len"), "samenonce")
+		ns := [][]byte{}
+		for k := rapid.IntRange(2, 4).Draw(t, "samenonce.n"); k > 0; k-- {
+			ns = append(ns, append([]byte{}, n...))
+		}
+		m.Nonces = &ns
+	}
 	switch kind {
+	case "extension-ptr-embedded":
+		// an extension whose optional claim group is embedded BY POINTER and
+		// absent, with pointer-receiver codec methods (the object itself,
+		// not a copy, reaches the encoding helpers)
+		m = GenValid(t, P2, true)
+		b, err := m.BuildSetters()
+		if err != nil {
+			t.Fatalf("VERIF-INFRA: %v", err)
+		}
+		c := newPtrEmbClaims()
+		prof, canon := c.Profile, c.CanonicalProfile
+		c.P2Claims = *(b.(*psatoken.P2Claims))
+		c.Profile, c.CanonicalProfile = prof, canon
+		return c18Subject{desc: kind, claims: c, sparse: true}
 	case "literal":
 		c, ok := m.BuildLiteral()
 		if !ok {
@@ -310,7 +333,7 @@ func drawC18Subject(t *rapid.T) c18Subject {
 
 func TestC18_ReadOnly(t *testing.T) {
 	st := NewStats("C18", "TestC18_ReadOnly", "rapid: a subject (claims-set of either profile as struct literal / via setters / decoded from CBOR with permuted and extra keys / decoded from JSON / an extension-profile instance; valid or with rule deviations; or an Evidence, decoded or freshly signed) and a random sequence of 1..30 read-side calls {Validate, each of the 10 getters, all getters, Encode CBOR/JSON, validate-and-encode CBOR/JSON, component-container Validate/Values/IsEmpty, Evidence.MarshalJSON / GetInstanceID / GetImplementationID / Verify with right, wrong, other-algorithm and nil key}. Oracle: the reflect-based deep fingerprint of everything a caller can reach (exported fields, pointers, slices, the component container) is identical before and after every call; every call repeated immediately returns the identical result; Observe (all getters + validity + both encodings) is identical at the end; Verify outcomes are stable; byte slices returned by earlier encode calls keep their content while other claims-sets are encoded in between. Non-trivial = sequence contains an encode or validate call on a set with an empty component container or an absent optional claim; distinct = subject kind + class of subject + op sequence")
-	st.Require = []string{"literal", "decoded-cbor", "decoded-json", "setters", "evidence-decoded", "evidence-signed", "extension", "sparse"}
+	st.Require = []string{"literal", "decoded-cbor", "decoded-json", "setters", "evidence-decoded", "evidence-signed", "extension", "extension-ptr-embedded", "sparse"}
 	defer st.Flush(t)
 	withExtProfiles(func() {
 		rapid.Check(t, func(t *rapid.T) {
